@@ -126,8 +126,11 @@ static void run(Src &s) {
     }
     std::string path = g_scr.dir + "/src.conf";
     write_file(path, f.text());
-    econf_err e = econf_readFile(&kf, path.c_str(), o.custom_D.c_str(), o.custom_C.c_str());
-    VF_CHECK(e == ECONF_SUCCESS && kf, "harness", "reading the generated source file failed rc=" << e << " " << describe(f));
+    // the object may also come out of the layered-read code (one file, no drop-ins)
+    int via = (int)s.weighted({65, 0, 15, 10, 10});
+    if (via) g_case.tag("object_from_layered_read");
+    econf_err e = read_via(via, g_scr.dir, "src", o.custom_D, o.custom_C, &kf);
+    VF_CHECK(e == ECONF_SUCCESS && kf, "harness", "reading the generated source file (" << READ_VIA_NAME[via] << ") failed rc=" << e << " " << describe(f));
     econf_set_delimiter_tag(kf, d);
     econf_set_comment_tag(kf, c);
     desc = "parsed " + describe(f);
